@@ -383,7 +383,9 @@ func runGraph(prop string, mix opMix) func(s *Sim) {
 						// has accepted so far, the new parent already is a descendant (edges are never removed, so it stays one)
 						mustRefuse := tr.Ref.IsAncestorAny(e[1], np)
 						err := client.MoveNode(a.Nc, e[1], e[0], np, "mv")
-						if !mustRefuse {
+						if !mustRefuse || cfg.DelayPM > 0 {
+							// with injected stalls an earlier acknowledged write of this connection may have timed out and
+							// still be under way, so the writes accepted meanwhile cannot be told apart: not judged
 							return err
 						}
 						if errors.Is(err, nats.ErrTimeout) || errors.Is(err, nats.ErrNoResponders) {
